@@ -23,14 +23,14 @@ class ElementQuadN1(ElementHcurl):
             phi = np.array([y - 1.0, nil])
             dphi = -np.ones_like(x)
         elif i == 1:
-            phi = np.array([nil, x])
-            dphi = np.ones_like(x)
+            phi = np.array([nil, -x])
+            dphi = -np.ones_like(x)
         elif i == 2:
             phi = np.array([y, nil])
             dphi = -np.ones_like(x)
         elif i == 3:
-            phi = np.array([nil, 1.0 - x])
-            dphi = -np.ones_like(x)
+            phi = np.array([nil, x - 1.0])
+            dphi = np.ones_like(x)
         else:
             self._index_error()
         return phi, dphi
